@@ -2,9 +2,10 @@
    program.  A filter is a pair of coefficient tables (power k of z^-1 -> value);
    the input and the output are lists, extended to all integer times by the zero
    value (input) and by the given memory (output). Definitions only. *)
-From Coq Require Import List Bool Arith ZArith QArith Qcanon.
+From Coq Require Import String List Bool Arith ZArith QArith Qcanon.
 From AL Require Import Base.CaseLib C04.Model.   (* data types only: pdata, carg, memarg, tamper *)
 Import ListNotations.
+Open Scope string_scope.
 Open Scope Qc_scope.
 
 (* x[n] : the input, and the zero value before time 0 *)
@@ -68,28 +69,41 @@ Definition causal (num den : pdata) : bool :=
 Definition all_zero (num den : pdata) : bool :=
   forallb (fun kv => Qc_eqb (snd kv) 0) (num ++ feedback den).
 
-Inductive outcome :=
-| Out (y : list Qc)
-| RefusedNonCausal             (* ValueError *)
-| RefusedZeroGain              (* ZeroDivisionError *)
-| RefusedConstruction          (* the constructor itself raised *)
-| Other.
+(* what a call was observed to do: the outputs of list(filt(x, memory, zero)), or an
+   exception; stage 0 = in the constructor, 1 = in filt(...) itself (nothing can have
+   been output), 2 = while iterating, before the first output, 3 = after an output *)
+Inductive obs := OOut (y : list Qc) | ORaise (stage : nat) (exn : string).
 
-(* what the property promises about one call of an existing filter (num, den) *)
-Definition sat (num den : pdata) (mem : memarg) (zero : Qc) (x : list Qc) (o : outcome) : Prop :=
-  if negb (causal num den) then o = RefusedNonCausal
-  else if Qc_eqb (coef den 0) 0 then o = RefusedZeroGain
-  else exists y, o = Out y /\
+(* "memories of sufficient length" *)
+Definition mem_sufficient (ord : nat) (m : memarg) : bool :=
+  match m with
+  | MNone => true
+  | MIter l => (ord <=? length l)%nat
+  | MCall f => (ord <=? length (f ord))%nat
+  end.
+
+(* what the property promises about one call of an existing filter (num, den).
+   Where the text is silent (a[0] = 0, a memory that is too short) nothing is demanded. *)
+Definition sat (num den : pdata) (mem : memarg) (zero : Qc) (x : list Qc) (o : obs) : Prop :=
+  if negb (causal num den) then o = ORaise 1 "ValueError" \/ o = ORaise 2 "ValueError"
+  else if Qc_eqb (coef den 0) 0 then True
+  else if negb (mem_sufficient (order den) mem) then True
+  else exists y, o = OOut y /\
        if all_zero num den then y = repeat zero (length x)
        else length y = length x /\
             forall n, (n < length x)%nat ->
               diffeq_at num den (xsig zero x) (ysig (past (order den) zero mem) y) (Z.of_nat n).
 
-Definition sat_b (num den : pdata) (mem : memarg) (zero : Qc) (x : list Qc) (o : outcome) : bool :=
-  if negb (causal num den) then match o with RefusedNonCausal => true | _ => false end
-  else if Qc_eqb (coef den 0) 0 then match o with RefusedZeroGain => true | _ => false end
+Definition sat_b (num den : pdata) (mem : memarg) (zero : Qc) (x : list Qc) (o : obs) : bool :=
+  if negb (causal num den) then
+    match o with
+    | ORaise s e => (Nat.eqb s 1 || Nat.eqb s 2) && String.eqb e "ValueError"
+    | _ => false
+    end
+  else if Qc_eqb (coef den 0) 0 then true
+  else if negb (mem_sufficient (order den) mem) then true
   else match o with
-       | Out y =>
+       | OOut y =>
            if all_zero num den then list_eqb Qc_eqb y (repeat zero (length x))
            else Nat.eqb (length y) (length x) &&
                 forallb (fun n => diffeq_b num den (xsig zero x)
